@@ -70,9 +70,21 @@ def gen_points(rng: random.Random, n: int, mode: int) -> List[List[int]]:
     return [[p, fine()] for p in pts]
 
 
-def gen_sample(rng: random.Random, name: str, key: str, *, n=None, max_clusters: int = 3) -> dict:
+def gen_sample(rng: random.Random, name: str, key: str, *, n=None, max_clusters: int = 3, long_bias: float = 0.0) -> dict:
     n = gen_words(rng, max_clusters) if n is None else n
     mode = rng.randint(0, 6)
+    if long_bias and rng.random() < long_bias:
+        # a sample of several clusters, most often laid out one cluster after the other, read from its first word
+        n = rng.randint(2, max(2, max_clusters)) * (R.CL // 2) + rng.choice([-600, -2, -1, 0, 0, 1, 2, 700])
+        mode = rng.choice([0, 1, 2, 3, 4, mode])
+        d = gen_sample(rng, name, key, n=n, max_clusters=max_clusters)
+        d["loop_mode"] = mode
+        d["points"] = gen_points(rng, n, mode)
+        if rng.random() < 0.6:
+            d["points"][0] = [0, 0]
+        if rng.random() < 0.7:
+            d["policy"] = "contiguous"
+        return d
     return {"name": name, "key": key, "n": n, "points": gen_points(rng, n, mode), "loop_mode": mode,
             "cluster_top": weighted(rng, [(0, 6), (1, 2), (2, 1)]), "freq": rng.randint(0, 5), "orig_key": rng.randint(21, 108),
             "policy": rng.choice(R.POLICIES), "seed": rng.getrandbits(30), "end_marker": rng.choice([0xFFFF, 0xFFFF, 0xFFF8, 0xFFFB, 0xFFFE]),
@@ -80,7 +92,7 @@ def gen_sample(rng: random.Random, name: str, key: str, *, n=None, max_clusters:
 
 
 def gen_model(rng: random.Random, *, max_samples: int = 8, max_perf: int = 4, max_vols: int = 3, max_clusters: int = 3,
-              share: bool = True, sparse: bool = True) -> dict:
+              share: bool = True, sparse: bool = True, long_bias: float = 0.0) -> dict:
     """Exact-arm model: sample names unique per disk, no L/R pairs, no sample reached through two patches of one performance."""
     keyc = [0]
 
@@ -90,7 +102,7 @@ def gen_model(rng: random.Random, *, max_samples: int = 8, max_perf: int = 4, ma
 
     used: set = set()
     ns = rng.randint(1, max_samples)
-    samples = [gen_sample(rng, safe_name(rng, used), key(), max_clusters=max_clusters) for _ in range(ns)]
+    samples = [gen_sample(rng, safe_name(rng, used), key(), max_clusters=max_clusters, long_bias=long_bias) for _ in range(ns)]
     if share and rng.random() < 0.3:
         # one more sample that lives further inside another sample's cluster chain (same FAT entry, larger cluster_top)
         owners = [i for i, sm in enumerate(samples) if sm["n"] > R.CL // 2 + 8]
